@@ -49,11 +49,14 @@ def grammar_forms(thorough):
     out = []
 
     def fn(body, loop):
+        if loop == 'forguard':
+            # the operand x is the guard of the enclosing counted loop: form and rewriting must be refused alike
+            return 'int f(int x,int y,int z){ int i; for (i = 0; i < x; i++) { %s } z = z + y; }' % body
         if loop:
             return 'int f(int x,int y,int z){ while (z < 9) { %s z = z + y; } }' % body
         return 'int f(int x,int y,int z){ %s }' % body
     single = {'-': 'y = x * 3;', '+': 'y = x;', '!': 'y = 0;', 'sizeof': 'y = 0;'}
-    for loop in ((False, True) if thorough else (False,)):
+    for loop in ((False, True, 'forguard') if thorough else (False, 'forguard')):
         for c1 in casts:
             for c2 in casts:
                 for op, twin in single.items():
